@@ -151,7 +151,7 @@ theorem div_dbl_eq_spec (R : Rounding) (v : Ver) (x y : Dbl) (hx : x.wf) :
 
 
 theorem mod_dbl_eq_spec_partial (R : Rounding) (v : Ver) (x y : Dbl)
-    (hk : trigF06x v .mod (.dbl x) (.dbl y) = false) :
+    (hk : trigF06x R v .mod (.dbl x) (.dbl y) = false) :
     (opMod R v (.dbl x) (.dbl y)).map absNum = specBin R .mod (.double x) (.double y) := by
   cases x <;> cases y <;> cases v <;>
     simp_all [opMod, coerce, isZero, Dbl.isZero, asDec, liftF, fmod, ieeeMod, specBin, promote, XVal.ty, Ty.rank,
@@ -243,5 +243,185 @@ theorem rhe_dbl_eq_spec (R : Rounding) (d : Dbl) (p : Int) :
     simp only [quantize_rhe_eq]
     by_cases h : roundHalfEven x p = 0 <;> simp [h]
 
+
+theorem sub_exact_eq_spec (R : Rounding) (a b : Num) (x : Int) (sx : Nat) (y : Int) (sy : Nat)
+    (ha : asDec a = some (x, sx)) (hb : asDec b = some (y, sy))
+    (hfit : trigIdef_bin .sub a b = false) :
+    (opSub R a b).map absNum = specBin R .sub (absNum a) (absNum b) := by
+  cases a <;> cases b <;> simp [asDec] at ha hb
+  all_goals (obtain ⟨h1, h2⟩ := ha; obtain ⟨h3, h4⟩ := hb; have h1 := h1.symm; have h2 := h2.symm
+             have h3 := h3.symm; have h4 := h4.symm; subst h1 h2 h3 h4)
+  · simp [opSub, coerce, absNum, specBin, promote, XVal.ty, Ty.rank, XVal.toRat?, exactBin, Except.map, pure, Except.pure]
+    rw [← Int.cast_sub, floor_intCast']
+  all_goals
+    simp only [trigIdef_bin, asDec, decide_eq_false_iff_not, not_lt] at hfit
+    rw [Int.sub_eq_add_neg, ← Int.neg_mul] at hfit
+    have h := decAdd_exact _ _ _ _ hfit
+    rw [decVal_neg] at h
+    simp [opSub, coerce, asDec, mkDec, absNum_dec, specBin, promote, XVal.ty, Ty.rank, XVal.toRat?, exactBin,
+      Except.map, pure, Except.pure, absNum, h, decVal_zero_scale, sub_eq_add_neg]
+    first | done | (simp only [decVal] at h; simpa [p10, sub_eq_add_neg] using h)
+
+theorem mul_exact_eq_spec (R : Rounding) (a b : Num) (x : Int) (sx : Nat) (y : Int) (sy : Nat)
+    (ha : asDec a = some (x, sx)) (hb : asDec b = some (y, sy))
+    (hfit : trigIdef_bin .mul a b = false) :
+    (opMul R a b).map absNum = specBin R .mul (absNum a) (absNum b) := by
+  cases a <;> cases b <;> simp [asDec] at ha hb
+  all_goals (obtain ⟨h1, h2⟩ := ha; obtain ⟨h3, h4⟩ := hb; have h1 := h1.symm; have h2 := h2.symm
+             have h3 := h3.symm; have h4 := h4.symm; subst h1 h2 h3 h4)
+  · simp [opMul, coerce, absNum, specBin, promote, XVal.ty, Ty.rank, XVal.toRat?, exactBin, Except.map, pure, Except.pure]
+    rw [← Int.cast_mul, floor_intCast']
+  all_goals
+    simp only [trigIdef_bin, asDec, decide_eq_false_iff_not, not_lt] at hfit
+    have h := fun sa sb => decMul_exact x sa y sb hfit
+    simp [opMul, coerce, asDec, mkDec, absNum_dec, specBin, promote, XVal.ty, Ty.rank, XVal.toRat?, exactBin,
+      Except.map, pure, Except.pure, absNum, decVal_zero_scale]
+    first
+      | done
+      | (have h' := h 0 sy; simp only [decVal] at h'; simpa [p10] using h')
+      | (have h' := h sx 0; simp only [decVal] at h'; simpa [p10] using h')
+      | (have h' := h sx sy; simp only [decVal] at h'; simpa [p10] using h')
+
+/-- division by an integer or decimal zero raises FOAR0001 (XPath 2.0+), whatever the dividend -/
+theorem div_zero_exact (R : Rounding) (v : Ver) (hv : v ≠ .v10) (a b : Num)
+    (ha : isFloat a = false) (hb : isFloat b = false) (hz : isZero b = true) :
+    opDiv R v a b = .error .FOAR0001 ∧ opIdiv R a b = .error .FOAR0001 ∧ opMod R v a b = .error .FOAR0001 := by
+  cases a <;> cases b <;> simp [isFloat] at ha hb <;> simp [isZero] at hz <;> subst hz <;> cases v <;>
+    simp_all [opDiv, opIdiv, opMod, coerce, isZero, isFloat, numIsInf, numIsNan, asDec, throw, throwThe,
+      MonadExceptOf.throw]
+
+
+theorem decVal_neg_iff (n : Int) (s : Nat) : decVal n s < 0 ↔ n < 0 := by
+  unfold decVal
+  have h := p10_castR_pos s
+  rw [div_neg_iff]
+  constructor
+  · rintro (⟨_, h2⟩ | ⟨h1, _⟩)
+    · linarith
+    · exact_mod_cast h1
+  · intro hn; right; exact ⟨by exact_mod_cast hn, h⟩
+
+theorem absNum_decOfUnscaled (neg : Bool) (c : Nat) (p : Int) :
+    absNum (decOfUnscaled neg c p) = .decimal (unscale neg c p) := by
+  unfold decOfUnscaled unscale
+  by_cases hp : 0 ≤ p
+  · cases neg <;> simp [hp, absNum, neg_div]
+  · cases neg <;> simp [hp, absNum, p10]
+
+theorem round_dec_eq_spec (R : Rounding) (n : Int) (s : Nat) (p : Int)
+    (hk : trigF06p (.round p) (.dec n s) = false) :
+    absNum (roundCore R (.dec n s) p) = .decimal (roundHalfUp (decVal n s) p) := by
+  have hx : ((n : Rat) / ((p10 s : Nat) : Rat)) = decVal n s := rfl
+  have hd : ¬ numDigits (quantMag (if decVal n s > 0 then Mode.halfUp else Mode.halfDown) (decVal n s) p) > 28 := by
+    simpa [trigF06p, exactOf, hx] using hk
+  have hneg : argNeg (.dec n s) = decide (decVal n s < 0) := by
+    simp [argNeg, decVal_neg_iff]
+  simp only [roundCore, exactOf, hx, hd, if_false, hneg, absNum_decOfUnscaled, quantize_round_eq]
+
+theorem rhe_dec_eq_spec (R : Rounding) (n : Int) (s : Nat) (p : Int)
+    (hk : trigF06p (.rhe p) (.dec n s) = false) :
+    absNum (fnRhe R (.dec n s) p) = .decimal (roundHalfEven (decVal n s) p) := by
+  have hx : ((n : Rat) / ((p10 s : Nat) : Rat)) = decVal n s := rfl
+  have hd : ¬ numDigits (quantMag Mode.halfEven (decVal n s) p) > 28 := by
+    simpa [trigF06p, exactOf, rheDecOverflow, hx] using hk
+  have hneg : argNeg (.dec n s) = decide (decVal n s < 0) := by
+    simp [argNeg, decVal_neg_iff]
+  simp only [fnRhe, exactOf, hx, hd, if_false, hneg, absNum_decOfUnscaled, quantize_rhe_eq]
+
+theorem intCast_neg_iff (n : Int) : ((n : Rat) < 0) ↔ n < 0 := by
+  constructor <;> intro h <;> exact_mod_cast h
+
+theorem round_int_eq_spec (R : Rounding) (n : Int) (p : Int)
+    (hk : trigF06p (.round p) (.int n) = false) :
+    absNum (roundCore R (.int n) p) = .integer (roundHalfUp (n : Rat) p).floor := by
+  have hd : ¬ numDigits (quantMag (if (n : Rat) > 0 then Mode.halfUp else Mode.halfDown) (n : Rat) p) > 28 := by
+    simpa [trigF06p, exactOf] using hk
+  have hneg : argNeg (.int n) = decide ((n : Rat) < 0) := by
+    simp [argNeg, intCast_neg_iff]
+  simp only [roundCore, exactOf, hd, if_false, hneg, absNum, quantize_round_eq]
+
+theorem nearestEven_intCast (m : Int) : nearestEven (m : Rat) = m :=
+  nearestEven_lo (m : Rat) m (Rat.floor_intCast m) (by simp)
+
+theorem rhe_int_nonneg (n p : Int) (hp : 0 ≤ p) : (roundHalfEven (n : Rat) p).floor = n := by
+  unfold roundHalfEven
+  rw [pow10_nonneg_eq p hp]
+  have e : (n : Rat) * ((p10 p.toNat : Nat) : Rat) = ((n * (p10 p.toNat : Nat) : Int) : Rat) := by push_cast; rfl
+  rw [e, nearestEven_intCast]
+  have h := p10_castR_pos p.toNat
+  have e2 : (((n * (p10 p.toNat : Nat) : Int)) : Rat) / ((p10 p.toNat : Nat) : Rat) = (n : Rat) := by
+    push_cast; field_simp
+  rw [e2, floor_intCast']
+
+theorem rhe_int_eq_spec (R : Rounding) (n : Int) (p : Int) :
+    absNum (fnRhe R (.int n) p) = .integer (roundHalfEven (n : Rat) p).floor := by
+  have hneg : argNeg (.int n) = decide ((n : Rat) < 0) := by
+    simp [argNeg, intCast_neg_iff]
+  by_cases hp : 0 ≤ p
+  · -- non-negative precision: an integer is returned unchanged; the spec value is the integer itself
+    simp only [fnRhe, exactOf, hp, if_true, absNum]
+    congr 1
+    exact (rhe_int_nonneg n p hp).symm
+  · simp only [fnRhe, exactOf, hp, if_false, hneg, absNum, quantize_rhe_eq]
+
+
+theorem liftF_ty (R : Rounding) (f : Dbl → Dbl → Dbl) (a b : Num) (h : isFloat a = true ∨ isFloat b = true)
+    (ha : ∀ n s, a ≠ .dec n s) (hb : ∀ n s, b ≠ .dec n s) :
+    numTy (liftF R f a b) = promote (numTy a) (numTy b) := by
+  cases a <;> cases b <;> simp_all [liftF, numTy, promote, Ty.rank, isFloat]
+
+theorem type_promotion_addsubmul (R : Rounding) (a b r : Num) :
+    (opAdd R a b = .ok r → numTy r = promote (numTy a) (numTy b)) ∧
+    (opSub R a b = .ok r → numTy r = promote (numTy a) (numTy b)) ∧
+    (opMul R a b = .ok r → numTy r = promote (numTy a) (numTy b)) := by
+  refine ⟨?_, ?_, ?_⟩ <;> intro h <;>
+  cases a <;> cases b <;>
+    simp [opAdd, opSub, opMul, coerce, asDec, liftF, mkDec, pure, Except.pure] at h <;>
+    subst h <;> simp [numTy, promote, Ty.rank]
+
+
+theorem type_idiv (R : Rounding) (a b r : Num) (h : opIdiv R a b = .ok r) : numTy r = .integer := by
+  unfold opIdiv at h
+  simp only [pure, Except.pure, throw, throwThe, MonadExceptOf.throw] at h
+  repeat' split at h
+  all_goals (cases h; try rfl)
+
+theorem type_div_partial (R : Rounding) (v : Ver) (hv : v ≠ .v10) (a b r : Num) (h : opDiv R v a b = .ok r)
+    (hk : trigF06t R v .div a b = false) : numTy r = resultTy .div (numTy a) (numTy b) := by
+  cases a <;> cases b <;>
+    simp [opDiv, coerce, asDec, liftF, mkDec, pure, Except.pure, throw, throwThe, MonadExceptOf.throw,
+      trigF06t, floatTyped, isFlt, isDbl] at h hk <;>
+    (repeat' split at h) <;> (try cases h) <;> simp_all [numTy, resultTy, promote, Ty.rank, isZero, isFloat]
+
+theorem type_mod_partial (R : Rounding) (v : Ver) (hv : v ≠ .v10) (a b r : Num) (h : opMod R v a b = .ok r)
+    (hk : trigF06t R v .mod a b = false) :
+    numTy r = resultTy .mod (numTy a) (numTy b) := by
+  cases a <;> cases b <;>
+    simp [opMod, coerce, asDec, liftF, mkDec, pure, Except.pure, throw, throwThe, MonadExceptOf.throw,
+      trigF06t, floatTyped, isFlt, isDbl, numIsInf, numIsNan, isFloat] at h hk <;>
+    (repeat' split at h) <;> (try cases h) <;> simp_all [numTy, resultTy, promote, Ty.rank, isZero, isFloat]
+
+/-- `idiv` on two xs:integer operands, all integers (no digit limit: Python ints are unbounded) -/
+theorem idiv_int_int_eq_spec (R : Rounding) (x y : Int) :
+    (opIdiv R (.int x) (.int y)).map absNum = specBin R .idiv (.integer x) (.integer y) := by
+  by_cases hy : y = 0
+  · simp [opIdiv, coerce, numIsInf, numIsNan, isZero, hy, absNum, specBin, XVal.toRat?, exactBin,
+      Except.map, throw, throwThe, MonadExceptOf.throw]
+  · have hyq : (y : Rat) ≠ 0 := by exact_mod_cast hy
+    simp [opIdiv, coerce, numIsInf, numIsNan, isZero, hy, hyq, absNum, specBin, XVal.toRat?, exactBin,
+      Except.map, pure, Except.pure, idivInt_eq_tdiv, trunc_div_int _ _ hy]
+
+theorem mod_int_int_eq_spec (R : Rounding) (v : Ver) (x y : Int) :
+    (opMod R v (.int x) (.int y)).map absNum = specBin R .mod (.integer x) (.integer y) := by
+  by_cases hy : y = 0
+  · simp [opMod, coerce, numIsInf, isZero, isFloat, hy, absNum, specBin, XVal.toRat?, exactBin,
+      Except.map, throw, throwThe, MonadExceptOf.throw]
+  · have hyq : (y : Rat) ≠ 0 := by exact_mod_cast hy
+    have hm : ((x : Rat) - (y : Rat) * ((x.tdiv y : Int) : Rat)) = ((x.tmod y : Int) : Rat) := by
+      have := Int.mul_tdiv_add_tmod x y
+      have e : x.tmod y = x - y * x.tdiv y := by omega
+      rw [e]; push_cast; ring
+    simp [opMod, coerce, numIsInf, isZero, isFloat, hy, hyq, absNum, specBin, XVal.toRat?, exactBin, promote,
+      XVal.ty, Ty.rank, Except.map, pure, Except.pure, modInt_eq_tmod, trunc_div_int _ _ hy, hm, floor_intCast']
 
 end EPV.Arith
